@@ -52,6 +52,8 @@ def handle (op : String) (args impl : List String) : Option Out :=
         | .err c => cmp s!"ab_ndarrw.{kind}.{c}" ["err", c] impl
         | _ => cmp s!"ab_ndarrw.{kind}.ok" ["ok", if kind == "seti" then "set" else "got"] impl)
       | _, _ => .malformed "ab_ndarrw args")
+  -- comparing with an uninitialised entity is refused (there is nothing to compare with); with itself: equal
+  | "ab_compare", [kind] => some (cmp s!"ab_compare.{kind}" ["ok", "UninitializedEntity", "0"] impl)
   -- one reference, one feature: index 0 is answered, every other index is refused with OutOfBounds — through every entry point
   | "ab_tagidx", [kind, ri, fi] =>
     some (match parseNat ri, parseNat fi with
